@@ -782,7 +782,11 @@ class Gen:
       assets.append(f'    <hfield name="hf" nrow="{nr}" ncol="{nc}" size="1.5 1.2 0.3 0.1" elevation="{_f(el)}"/>')
     if assets:
       lines += ["  <asset>"] + assets + ["  </asset>"]
-    lines += ["  <worldbody>"] + extra_world + wb + ["  </worldbody>"]
+    # wrap geoms and their side sites live in a last, jointless (static) body, so that their ids exceed the other
+    # geoms' / sites' ids (geom id >= nsite happens)
+    if extra_world:
+      extra_world = ['    <body name="bwrap">'] + ["  " + x for x in extra_world] + ["    </body>"]
+    lines += ["  <worldbody>"] + wb + extra_world + ["  </worldbody>"]
     if tend:
       lines += ["  <tendon>"] + tend + ["  </tendon>"]
     if act:
